@@ -68,4 +68,43 @@ theorem decompose_none (U : UData) (F : Font) (s : Bool) (fuel c : Nat) (h : U.d
     decompose U F s (fuel + 1) c = some [] := by
   rw [decompose]; simp [h]
 
+/-- whatever `decompose_current_character` emits for a record, in either mode, decomposed to the end is the full
+    canonical decomposition of the record's character: the output is `a :: bs` with `full(c) = full(a) ++ bs` — no second
+    component is dropped on the way, nothing is added. -/
+theorem dcc_conserves (U : UData) (F : Font) (K : Consts) (fuel : Nat) (s : Bool) (x : Info) (flags : Nat)
+    (l : List Info) (f : Nat) (h : decomposeCurrentCharacter U F K fuel s x flags = some (l, f))
+    (lx : List Nat) (hl : FullDecomp U x.cp lx) :
+    ∃ a bs la, l.map (·.cp) = a :: bs ∧ FullDecomp U a la ∧ lx = la ++ bs := by
+  cases hd : (if !s || (F.glyph x.cp).isNone then decompose U F s fuel x.cp else some []) with
+  | none =>
+    unfold decomposeCurrentCharacter at h
+    simp only [hd] at h
+    cases h
+  | some r =>
+    cases r with
+    | nil =>
+      obtain ⟨g, p, f', h1, _⟩ := dcc_kept U F K fuel s x flags hd
+      rw [h1] at h
+      cases h
+      exact ⟨x.cp, [], lx, rfl, hl, by simp⟩
+    | cons p ps =>
+      have h1 := dcc_decomposed U F K fuel s x flags (p :: ps) (by simp) hd
+      rw [h1] at h
+      have sp := outputChars_spec U K x (p :: ps) flags
+      have hl' : l = (outputChars U K x (p :: ps) flags).1 := by
+        have := congrArg (fun o => o.map Prod.fst) h
+        simpa using this.symm
+      have hdec : decompose U F s fuel x.cp = some (p :: ps) := by
+        by_cases hc : (!s || (F.glyph x.cp).isNone) = true
+        · simpa [hc] using hd
+        · simp [hc] at hd
+      rw [hl', sp.1]
+      cases s with
+      | true =>
+        obtain ⟨k, hk, _, _⟩ := (decompose_shortest U F fuel x.cp (p :: ps) hdec).1 (by simp)
+        exact hk.full hl
+      | false =>
+        obtain ⟨k, hk, _, _⟩ := (decompose_full U F fuel x.cp (p :: ps) hdec).1 (by simp)
+        exact hk.full hl
+
 end RbModel.Norm
